@@ -229,6 +229,15 @@ Theorem C01_gen_make_header : forall (pyval : Type) (v_str : list byte -> pyval)
   gen_make_header pyval v_str v_descr hdr dt = make_header pyval v_str v_descr hdr dt.
 Proof. exact gen_make_header_eq. Qed.
 
+(* The header framing (size line, dict text, END, blank line, joined by newlines) is the translation
+   of the list SFile._write_header joins; the reader's choice of lines (lines[0], lines[1:len-3] joined
+   by blanks) is the translation of the indices and the slice in SFile.read_header. *)
+Theorem C01_gen_mk_header : forall n d, gen_mk_header n d = mk_header n d.
+Proof. exact gen_mk_header_eq. Qed.
+
+Theorem C01_gen_parse_header : forall hs, gen_parse_header hs = parse_header hs.
+Proof. exact gen_parse_header_eq. Qed.
+
 (* The model's low-level read is the composition of the translated integer functions
    (_count_nrows, Records::process_nrows, _get_slice_nrows, Records::process_slice) with the fread. *)
 Theorem C01_gen_recfile_read : forall f offset rs nrows,
@@ -298,6 +307,33 @@ Theorem C01_roundtrip_real_text : forall real uhdr head dt rows, hpf_check real 
                 (sfile_write pv py_vstr py_vdescr (fun _ => real) uhdr dt rows) = Ok out
               /\ roundtrip_ok pv eq py_vint py_np_dtype uhdr dt rows out.
 Proof. exact roundtrip_real_text. Qed.
+
+(* The same for EVERY user header (no premise on its keys), given that in the evaluated dict the
+   first key that lower-cases to _dtype is _DTYPE itself — which the checker [hpf_check_all] decides
+   on the real text (pformat sorts the keys; _DTYPE sorts before every other spelling). *)
+Theorem C01_roundtrip_ordered :
+  forall (pyval : Type) (pyeq : pyval -> pyval -> Prop)
+         (v_str : list byte -> pyval) (v_int : Z -> pyval) (v_descr : dtype -> pyval)
+         (np_dtype : pyval -> option dtype) (pformat : hdict pyval -> list byte)
+         (pyeval : list byte -> option (hdict pyval))
+         (hdr : hdict pyval) (dt : dtype) (rows : list (list byte)) (h' : hdict pyval),
+    hdr_text_ok (pformat (make_header pyval v_str v_descr hdr dt)) = true ->
+    pyeval (join [sp] (split_nl (pformat (make_header pyval v_str v_descr hdr dt)))) = Some h' ->
+    dict_equiv pyval pyeq h' (make_header pyval v_str v_descr hdr dt) ->
+    (forall v, dget pyval (B "_DTYPE") h' = Some v -> np_dtype v = Some dt) ->
+    first_key pyval h' (B "_dtype") = Some (B "_DTYPE") ->
+    rows <> [] -> rows_fit dt rows -> 0 < rowsize dt ->
+    exists out, sfile_read pyval v_str v_int np_dtype pyeval
+                  (sfile_write pyval v_str v_descr pformat hdr dt rows) = Ok out
+                /\ roundtrip_ok pyval pyeq v_int np_dtype hdr dt rows out.
+Proof. exact roundtrip_ordered. Qed.
+
+Theorem C01_roundtrip_real_text_all_keys : forall real uhdr head dt rows, hpf_check_all real uhdr head dt = true ->
+  rows <> [] -> rows_fit dt rows -> 0 < rowsize dt ->
+  exists out, sfile_read pv py_vstr py_vint py_np_dtype py_eval
+                (sfile_write pv py_vstr py_vdescr (fun _ => real) uhdr dt rows) = Ok out
+              /\ roundtrip_ok pv eq py_vint py_np_dtype uhdr dt rows out.
+Proof. exact roundtrip_real_text_all. Qed.
 
 (* ---- frame conditions and history (Frame.v): the entry points as steps on a file system.
    Reads change no file; a write changes exactly the file it names. *)
@@ -437,3 +473,9 @@ Example C01_reject_nonvacuous :
   /\ sfile_read_c (sfile_file w_text_value ex_rows) ex_dt = Ok (2, ex_rows)
   /\ take_rows 2 2 [x01; x02; x03] = Err ERuntime.
 Proof. exact reject_nonvacuous. Qed.
+
+(* hpf_check_all accepts a real pformat text whose user header is OUTSIDE user_hdr_ok (two other
+   spellings of _dtype, a mixed-case _Delim that was stripped). *)
+Example C01_hpf_check_all_nonvacuous :
+  hpf_check_all a_text a_uhdr a_head ex_dt = true /\ ~ user_hdr_ok pv a_uhdr.
+Proof. exact hpf_check_all_nonvacuous. Qed.
